@@ -8,7 +8,8 @@
                                    `_diemap`/`_dielist`, Python's `[i - 1]` with i = 0), iter_DIE_children (generator,
                                    resumable, DW_AT_sibling shortcut, `_terminator` reuse), iter_DIEs /
                                    `_iter_DIE_subtree` (generator stack)
-    elftools/dwarf/die.py          get_parent, `_search_ancestor_offspring`, set_parent
+    elftools/dwarf/die.py          get_parent, `_search_ancestor_offspring`, set_parent, iter_siblings (list form and as a
+                                   resumable generator: `sibNext`), get_DIE_from_attribute
     elftools/elf/elffile.py        `_section_name_map` (get_section_index)
     elftools/elf/sections.py       `_symbol_name_map` (get_symbol_by_name)
 
@@ -233,6 +234,32 @@ def getParent (fuel : Nat) (self : DIE) (u : UnitCache) : R (Option DIE) × Unit
       | (.error e, u) => (.error e, u)
       | (.ok (), u) => (.ok (assocGet? u.parent self.offset), u)
 
+/-- `for sibling in parent.iter_children(): if sibling is not self: yield sibling` up to the next `yield`
+    (DIE objects are unique per offset while cached, so `is` is equality of offsets); `n` bounds the entries skipped -/
+def sibSkip (fuel : Nat) (self : DIE) : Nat → ChildIter → UnitCache → R (Option DIE) × ChildIter × UnitCache
+  | 0, ci, u => (.error .outOfFuel, ci, u)
+  | n+1, ci, u =>
+    match childNext PD dieOff fuel ci u with
+    | (.error e, ci, u) => (.error e, ci, u)
+    | (.ok none, ci, u) => (.ok none, ci, u)
+    | (.ok (some s), ci, u) => if s.offset = self.offset then sibSkip fuel self n ci u else (.ok (some s), ci, u)
+
+/-- one `next()` of a `die.iter_siblings()` generator; `ci = none`: the body has not started yet, its first
+    statement is `parent = self.get_parent()`; without a parent the generator executes `raise StopIteration()` -/
+def sibNext (fuel : Nat) (self : DIE) (ci : Option ChildIter) (u : UnitCache) :
+    R (Option DIE) × Option ChildIter × UnitCache :=
+  match ci with
+  | some ci =>
+    let r := sibSkip PD dieOff fuel self fuel ci u
+    (r.1, some r.2.1, r.2.2)
+  | none =>
+    match getParent PD dieOff fuel self u with
+    | (.error e, u) => (.error e, none, u)
+    | (.ok none, u) => (.error .stopIteration, none, u)
+    | (.ok (some p), u) =>
+      let r := sibSkip PD dieOff fuel self fuel (ChildIter.new p) u
+      (r.1, some r.2.1, r.2.2)
+
 end unit
 
 /-! ### the whole object -/
@@ -259,6 +286,7 @@ inductive IterKind
   | cus
   | dies (cu : Nat)
   | children (cu off : Nat)
+  | siblings (cu off : Nat)
   deriving DecidableEq, Repr, Inhabited
 
 inductive Op
@@ -297,6 +325,8 @@ inductive Iter
   | cus (offset : Nat) (done : Bool)
   | children (cu : Nat) (ci : ChildIter)
   | dies (cu : Nat) (stack : List Frame) (done : Bool)
+  /-- `die.iter_siblings()` of the DIE `self`; `ci = none`: the generator body has not started -/
+  | siblings (cu : Nat) (self : DIE) (ci : Option ChildIter) (done : Bool)
   deriving Repr, Inhabited
 
 structure State where
@@ -382,6 +412,11 @@ def newIter (st : State) : IterKind → R Iter × State
     match dieAt F st cu off with
     | (.error e, st) => (.error e, st)
     | (.ok (_, d), st) => (.ok (.children cu (ChildIter.new d)), st)
+  | .siblings cu off =>
+    -- `die.iter_siblings()` creates the generator; its body (`get_parent()` first) runs at the first `next()`
+    match dieAt F st cu off with
+    | (.error e, st) => (.error e, st)
+    | (.ok (_, d), st) => (.ok (.siblings cu d none false), st)
 
 /-- `next(it)`: `none` is StopIteration.  A generator that raised is finished. -/
 def nextIter (st : State) : Iter → R (Option Nat) × Iter × State
@@ -411,6 +446,15 @@ def nextIter (st : State) : Iter → R (Option Nat) × Iter × State
         let r := subNext (F.parseDIE cu) c.cuDieOffset (fuelOf F) stack (unitOf st cu)
         let fin := match r.1 with | .ok (some _) => false | _ => true
         (r.1.map (·.map (·.offset)), .dies cu r.2.1 fin, putUnit st cu r.2.2)
+  | .siblings cu self ci done =>
+    if done then (.ok none, .siblings cu self ci true, st)
+    else
+      match st.cus.cus.find? (·.cuOffset == cu) with
+      | none => (.error .keyError, .siblings cu self ci done, st)
+      | some c =>
+        let r := sibNext (F.parseDIE cu) c.cuDieOffset (fuelOf F) self ci (unitOf st cu)
+        let fin := match r.1 with | .ok (some _) => false | _ => true
+        (r.1.map (·.map (·.offset)), .siblings cu self r.2.1 fin, putUnit st cu r.2.2)
 
 /-- up to `n` items of a generator -/
 def takeIter : Nat → Iter → State → List Nat → R (List Nat) × Iter × State
